@@ -13,7 +13,10 @@ def parseDiag? (tok : String) : Option D :=
     match sev?, line.toNat?, col.toNat?, id.toNat? with
     | some sev, some l, some c, some i =>
       let fileBytes := if file == "-" then [] else file.toUTF8.toList.map (·.toNat)
-      some ⟨sev, hl == "1", nl == "1", fileBytes, l, c, i⟩
+      -- order-preserving number: big-endian value of the name padded to 48 bytes (names in the protocol are shorter, no NUL)
+      let padded := (fileBytes ++ List.replicate (48 - fileBytes.length) 0).take 48
+      let fk := padded.foldl (fun acc b => acc * 256 + b) 0
+      some ⟨sev, hl == "1", nl == "1", fk, l, c, i⟩
     | _, _, _, _ => none
   | _ => none
 
